@@ -47,6 +47,10 @@ def _spectrum(case):
         Sy[:, :, k] = M
     if case["half"]:
         Sy = Sy[:, : case["nref"], :]
+    if case.get("nonherm"):
+        # square but not Hermitian (as produced by the one-sided, exponentially windowed correlogram)
+        G = rng.normal(size=(Sy.shape[1], Sy.shape[1])) * 0.3 + np.eye(Sy.shape[1])
+        Sy = np.einsum("ijk,jl->ilk", Sy, G + 0.2j * rng.normal(size=G.shape))
     return freq, Sy, f0
 
 
@@ -61,7 +65,7 @@ def pick_case(draw):
     sel = [draw(st.floats(0.0, 1.0)) * fs / 2 for _ in range(nsel)]
     return {"n": n, "half": half, "nref": draw(st.integers(2, n)) if half else n, "nf": nf, "fs": fs, "nmodes": draw(st.integers(0, 4)),
             "complex": draw(st.booleans()), "floor": draw(st.sampled_from([1e-1, 1e-3, 1e-6])), "seed": draw(st.integers(0, 2**32 - 1)),
-            "sel": sel, "DFm": draw(st.one_of(st.floats(1.0, 6.0), st.floats(1.0, 60.0)))}
+            "sel": sel, "DFm": draw(st.one_of(st.floats(1.0, 6.0), st.floats(1.0, 60.0))), "nonherm": draw(st.integers(0, 3)) == 0}
 
 
 def _oracle_pick(j, tag, freq, Sy, sel, DF, Fn, Phi):
@@ -100,15 +104,17 @@ def judge_pick(case):
     freq, Sy, f0 = _spectrum(case)
     df = freq[1] - freq[0]
     DF = case["DFm"] * df
-    j.tag("half" if case["half"] else "hermitian", "complex" if case["complex"] else "real")
+    j.tag("half" if case["half"] else ("square-nonhermitian" if case.get("nonherm") else "hermitian"), "complex" if case["complex"] else "real")
     out = sut(fdd.SD_svalsvec, Sy.copy())
     if not j.check(not raised(out), "svalsvec-raises", lambda: f"{out!r}"):
         return j
     Sval, Svec = out
     sel = [float(min(max(s, 0.0), freq[-1])) for s in case["sel"]]
+    Sval0, Svec0 = np.array(Sval, copy=True), np.array(Svec, copy=True)
     res = sut(fdd.FDD_mpe, Sval, Svec, freq.copy(), list(sel), DF=DF)
     if not j.check(not raised(res), "mpe-raises", lambda: f"{res!r}"):
         return j
+    j.check(np.array_equal(Sval, Sval0) and np.array_equal(Svec, Svec0), "mpe-mutates-decomposition", "FDD_mpe modified the singular values / vectors it was given")
     Fn, Phi = np.asarray(res[0]), np.asarray(res[1])
     if not j.check(Fn.shape == (len(sel),) and Phi.shape == (Sy.shape[0], len(sel)), "mpe-shape", lambda: f"Fn{Fn.shape} Phi{Phi.shape}"):
         return j
@@ -255,9 +261,8 @@ def judge_e2e(case):
             # the first stage picks the line; EFDD reports a refined frequency, so locate the picked line from the shape
             nf = len(freq)
             df = freq[1] - freq[0]
-            lo, hi = int(np.argmin(np.abs(freq - (s - DF)))), int(np.argmin(np.abs(freq - (s + DF))))
             best, bidx = -1, None
-            for k in range(max(lo - 1, 0), min(hi + 2, nf)):
+            for k in range(nf):
                 U, sv, _ = scipy.linalg.svd(Sy[:, :, k])
                 m_ = mac(Phi[:, q], np.conj(U[:, 0]))
                 if m_ > best:
@@ -270,6 +275,12 @@ def judge_e2e(case):
     sv = scipy.linalg.svd(Sy[:, :, k], compute_uv=False)
     d = np.real(np.diag(np.asarray(res.S_val)[:, :, k]))
     j.check(np.allclose(d, sv[: len(d)], rtol=1e-9) or np.allclose(d**2, sv[: len(d)], rtol=1e-9), "e2e-stored-values", "result.S_val does not belong to result.Sy")
+    # the stored vectors are still a faithful decomposition after the extraction (at the picked lines too)
+    Svec = np.asarray(res.S_vec)
+    lines = sorted({k, *[int(np.argmin(np.abs(freq - f))) for f in np.atleast_1d(Fn)]})
+    for kk in lines:
+        V = Svec[:, :, kk]
+        j.check(np.allclose(V @ V.conj().T, np.eye(V.shape[0]), atol=1e-9), "e2e-stored-vectors", lambda: f"after mpe the stored singular vectors at line {kk} are no longer unitary")
     return j
 
 
